@@ -15,10 +15,10 @@ CHECKS = {
          "Each generated input/schedule is run with handler set H and with 1-3 supersets H+O (O observers only); sink bytes and the events of H's handlers must be identical, i.e. tag-scan mode and full lexing agree.",
          "Inputs are valid in their encoding and avoid characters with ASCII trail bytes so that an added text observer cannot legitimately normalise bytes (C01's documented exception).", "4/C06"),
  "C14": ("exploration", "property-based testing with a layout-owning document generator and an independent attribute tokenizer as reference model",
-         "Generated structured documents (generator records every token's byte range) x schedules x encodings: every reported element/end tag/comment/doctype/text-node range and every attribute name/value range must equal the generator's; byte-soup inputs are checked for range invariants.",
+         "Generated structured documents (generator records every token's byte range) x schedules x encodings: every reported element/end tag/comment/doctype/text-node range and every attribute name/value range must equal the generator's; an auditing handler registered after content-editing handlers re-reads attribute locations (still-reported ranges must be the bytes of the current name/value, untouched attributes keep theirs); byte-soup inputs are checked for range invariants.",
          "R-attr (harness WHATWG start-tag tokenizer, cross-checked against html5ever in C16) defines attribute bytes.", "4/C14"),
  "C16": ("exploration", "property-based testing against reference models (R-attr, R-tree) plus differential against html5ever's tag token",
-         "For generated start tags with arbitrary attribute syntax in HTML/SVG/MathML context, every cut inside the tag and 36 encodings, all Element getters before and after set_attribute/remove_attribute/set_tag_name must equal the model derived from the tag's bytes.",
+         "For generated start tags with arbitrary attribute syntax in HTML/SVG/MathML context, every cut inside the tag, 36 encodings and optional companion registrations with generated selectors, all Element and StartTag getters before and after set_attribute/remove_attribute/set_tag_name must equal the model derived from the tag's bytes.",
          "html5ever 0.39 as WHATWG reference for single tags; lookups restricted to names set_attribute accepts.", "4/C16"),
  "C04": ("exploration", "property-based testing against a reference model (CSS selector evaluator R-css over the induced element tree R-tree)",
          "Generated selector sets (full supported grammar, shared prefixes) x structured documents x schedules; for every selector the set of start tags its handler fired for must equal the reference evaluation, without duplicates, and independently of the other registered selectors.",
@@ -51,13 +51,13 @@ CHECKS = {
          "Adversarial strings (markup characters, terminators, entities, NUL/CR, non-BMP, unmappable) inserted as Text content, attribute value/name, tag name and comment text at 19 insertion points in Data/RCDATA/RAWTEXT/script/SVG/MathML/comment contexts, on target tags with 9 attribute-list shapes (empty values, `=`-led names, `/` separators, value-less, duplicates) and in 36 encodings: re-parsing the output must give the original token structure plus exactly the inserted item; rejected calls leave the output byte-identical.",
          "html5ever 0.39 is the re-parser; WHATWG preprocessing applied to expected text; set_tag_name within its documented precondition.", "4/C08"),
  "C13": ("exploration", "property-based testing, differential against encoding_rs one-shot codecs in all 36 encodings",
-         "Strings read by handlers (text nodes incl. >1 KiB runs, malformed bytes, characters split by writes; comment text; names; attribute values) must equal the one-shot decode of the bytes at the reported range; inserted content must equal the one-shot encode with numeric references; <meta charset> switches once, right after the declaring tag, for later tokens only; non-ASCII-compatible encodings are refused.",
+         "Strings read by handlers (text nodes incl. >1 KiB runs, malformed bytes, characters split by writes; comment text; names; attribute values) must equal the one-shot decode of the bytes at the reported range; inserted content must equal the one-shot encode with numeric references; <meta charset> switches once, the sink notified right after the declaring tag's bytes, for later tokens and insertions only, under five handler sets (with and without anything keeping the lexer running); non-ASCII-compatible encodings are refused.",
          "encoding_rs whole-buffer decode_without_bom_handling / encode as the oracle.", "4/C13"),
  "C17": ("exploration", "property-based differential testing of mirrored handler scripts (C entry points vs Rust API) under AddressSanitizer + LeakSanitizer, in a supervised child process",
          "One generated script is interpreted through extern \"C\" declarations written from lol_html.h and through the Rust API: sink bytes, accessor values, return codes and error texts must match, every failure must leave a thread-local last error (and never a stale one, never visible to another thread), drop callbacks run exactly once; free orders permitted by the header are permuted; the child runs under ASan/LSan and an abort, unwind, sanitizer report or leak is attributed to the journaled case.",
          "Histories the header forbids are not generated; falls back to a plain build if the nightly ASan build is unavailable (recorded in the evidence).", "4/C17"),
  "C18": ("exploration", "property-based testing, metamorphic: concurrent / migrated instances vs their own sequential run",
-         "Batches of 16 rewriters (equal and different configurations, faults, tiny limits) run on 16 threads behind a barrier with generated yields, plus a send::HtmlRewriter moved to a new thread after every write and concurrent selector parsing; each instance's sink calls, events and errors must equal its sequential run.",
+         "Batches of 16 rewriters (equal and different configurations, faults, tiny limits) run on 16 threads behind a barrier with generated yields, plus a send::HtmlRewriter moved to a new thread after every write and repeated concurrent parsing of supported/refused/invalid selector strings (outcome must equal a brand-new thread's); each instance's sink calls, events and errors must equal its sequential run.",
          "The OS schedule is sampled, not controlled: detects shared mutable state, not a specific interleaving; C API thread-local errors are checked in C17.", "4/C18"),
 }
 PENDING = {}
@@ -76,7 +76,7 @@ def main():
             "replay_cmd_template": f"./check {pid} --replay {{path}}",
             "engine": "lolv-capi" if pid == "C17" else "lolv",
             "level_claimed": {"category": cat, "text": text, "design_ref": f"DESIGN.md section {ref}"},
-            "level_note": note,
+            "level_note": note + ("" if pid in ("C17", "C18") else " Thorough tier: 20-40x the cases, then a coverage-guided libFuzzer campaign (16 processes) over the same tape decoder and oracle."),
             "technique": tech,
         })
     na = [{"property_id": p, "reason": PENDING.get(p, "check not built yet in this round (planned: see DESIGN.md section 4); not claimed until it exists")} for p in ALL if p not in CHECKS]
